@@ -57,6 +57,8 @@ def decl_block(g, lang):
     for i, t in enumerate(g['terms']):
         num = ' %d' % t['num'] if t.get('num') is not None else (' ' + t['alias'] if t.get('alias') and not t['lit'] else '')
         line = '%%token <%s> %s%s\n' % (t['tag'], gram.tname(g, i), num)
+        if t.get('hidden'):
+            continue          # a literal that occurs in a %prec only
         if t.get('declared') is False and not t['lit'] and i in inprec and not num:
             late.append(line)
         else:
